@@ -17,7 +17,10 @@ RULE = (
     "one documented constraint toggled, at the boundary value and just beyond it (stride 3/4, dilated kernel height 64/65 incl. via dilation, kernel product 4096/4160, pool "
     "kernel 8/9 and 256/257, ARG_MAX depth 127/128, tensor dimension 65535/65536, batch 1/2, bias 2^39-1/2^39, depth multiplier, resize factor 2/3, MEAN width 4096/4097, "
     "transpose-conv stride 2/3, softmax beta sign, data-type sentences, constant weights) x 6 accelerators x random channel counts; expected placement from a predicate table "
-    "keyed by the report's sentence; observed from the output file (operator present unchanged vs produced by an Ethos-U operator). (2) publication: the report produced by "
+    "keyed by the report's sentence; observed from the output file (operator present unchanged vs produced by an Ethos-U operator). (1b) products: compound sentences are decided "
+    "over the cross product of their parameters - TRANSPOSE_CONV stride (1x1, 2x2, 2x1, 1x2, 3x3) x IFM height x kernel height/width x padding (120 cases, all in both tiers) and "
+    "RESIZE_BILINEAR/NEAREST IFM size x scale factors x size rule x align_corners x half_pixel_centers (seeded sample of 180 quick, all 720 thorough) - expected placement = conjunction "
+    "of the report's criteria. (2) publication: the report produced by "
     "--supported-ops-report equals the committed SUPPORTED_OPS.md (modulo the version line) and contains every sentence the table keys on. "
     "non-trivial = every enforcement case (each lies on or one step beyond a documented limit); distinct = (toggle, side, accelerator, shape parameters)."
 )
@@ -238,6 +241,111 @@ def oracle(case, rec=None):
         rec.nontriv([case], sample=case)
 
 
+# ---- products: compound sentences decided over a cross product of their parameters --------------------------------
+TCONV_STRIDES = [(1, 1), (2, 2), (2, 1), (1, 2), (3, 3)]
+
+
+def product_cases(family):
+    """the full parameter list of one product family (each entry is a JSON-able dict)"""
+    out = []
+    if family == "tconv":
+        for (sw, sh) in TCONV_STRIDES:
+            for ih in (1, 2):
+                for kh in (1, 2, 3):
+                    for kw in (1, 3):
+                        for pad in ("SAME", "VALID"):
+                            out.append(dict(family="tconv", sw=sw, sh=sh, ih=ih, iw=4, kh=kh, kw=kw, pad=pad))
+    elif family == "resize":
+        for code in ("RESIZE_BILINEAR", "RESIZE_NEAREST_NEIGHBOR"):
+            for (ih, iw) in ((1, 1), (2, 2), (2, 3), (3, 3), (4, 2)):
+                for fh in (1, 2, 3, 4, 8):
+                    for fw in (1, 2, 3, 4, 8):
+                        if fh != fw and (fh not in (2, 4) or fw not in (2, 4, 8)):
+                            continue  # unequal factors: a few representatives are enough
+                        for mode in ("mul", "corners"):
+                            for ac in (False, True):
+                                for hpc in (False, True):
+                                    out.append(dict(family="resize", code=code, ih=ih, iw=iw, fh=fh, fw=fw, mode=mode, ac=ac, hpc=hpc))
+    return out
+
+
+def product_spec(p, c):
+    """-> (spec, expected placement, the sentences that decide it)"""
+    if p["family"] == "tconv":
+        sw, sh, ih, iw, kh, kw, pad = p["sw"], p["sh"], p["ih"], p["iw"], p["kh"], p["kw"], p["pad"]
+        if pad == "SAME":
+            oh, ow = ih * sh, iw * sw
+        else:
+            oh, ow = ih * sh + max(kh - sh, 0), iw * sw + max(kw - sw, 0)
+        spec = dict(tensors=[T("oshape", [4], "int32", None, None, dict(values=[1, oh, ow, 2])), T("weights", [2, kh, kw, c], "int8", 0.01, 0, dict(seed=3, lo=-3, hi=3)), T("input", [1, ih, iw, c]),
+                             T("bias", [2], "int32", 0.0005, 0, dict(seed=4, lo=-10, hi=10)), T("output", [1, oh, ow, 2], "int8", 0.1, 0)],
+                    ops=[dict(code="TRANSPOSE_CONV", inputs=[0, 1, 2, 3], outputs=[4], opts=dict(table="TransposeConvOptions", fields=dict(Padding=0 if pad == "SAME" else 1, StrideW=sw, StrideH=sh)), version=3)],
+                    inputs=[2], outputs=[4])
+        ok = (sw, sh) in ((1, 1), (2, 2)) or ((sw, sh) == (2, 1) and ih == 1 and kh == 1)
+        return spec, ok, "tconv_stride"
+    code, ih, iw, fh, fw, mode, ac, hpc = p["code"], p["ih"], p["iw"], p["fh"], p["fw"], p["mode"], p["ac"], p["hpc"]
+    oh, ow = (ih * fh, iw * fw) if mode == "mul" else ((ih - 1) * fh + 1, (iw - 1) * fw + 1)
+    spec = unary_spec(code, [1, ih, iw, c], "int8", "ResizeBilinearOptions" if code == "RESIZE_BILINEAR" else "ResizeNearestNeighborOptions", dict(AlignCorners=ac, HalfPixelCenters=hpc),
+                      out_shape=[1, oh, ow, c], extra_inputs=[T("size", [2], "int32", None, None, dict(values=[oh, ow]))])
+    spec["ops"][0]["version"] = 3
+    if (ih, iw) == (1, 1) or (ih, iw) == (oh, ow):
+        shape_ok = True
+    elif ac:
+        shape_ok = (oh - 1) * (iw - 1) == (ow - 1) * (ih - 1) and (oh - 1) in [k * (ih - 1) for k in (2, 4, 8)]
+    else:
+        shape_ok = oh * iw == ow * ih and oh in [k * ih for k in (2, 4, 8)]
+    ok = shape_ok and not (ac and hpc)
+    if code == "RESIZE_BILINEAR" and hpc:
+        ok = ok and ((ih, iw) == (1, 1) or (oh, ow) == (2 * ih, 2 * iw))
+    return spec, ok, "resize"
+
+
+def oracle_product(case, rec=None):
+    p = case["params"]
+    spec, ok, key = product_spec(p, case["c"])
+    cfg = dict(accel=case["accel"], memory_mode="default", optimise="Performance", allocator="HillClimb", cpu_tensor_alignment=16, max_block_dependency=3)
+    full = dict(kind="e2e", spec=spec, cfg=cfg)
+    art, res = e2e.compile_case(full)
+    if res.get("harness"):
+        raise HarnessError(res["exc"][3])
+    if art is None:
+        raise Violation("C16/compile-failed/product-%s" % p["family"], "single-operator network %s did not compile: %s" % (p, (res.get("exc") or [None, res.get("stdout", "")[-200:]])[1]), case)
+    got = placement(spec, art.model)
+    want = "npu" if ok else "cpu"
+    if got != want:
+        raise Violation("C16/placement/product-%s-%s" % (p["family"], "in" if ok else "out"),
+                        "%s %s: the documented criteria are %s but the operator is placed on the %s on %s" % (
+                            spec["ops"][0]["code"], {k: v for k, v in p.items() if k != "family"}, "satisfied" if ok else "violated", got.upper(), case["accel"]), case)
+    if want == "cpu":
+        import props.c11 as c11
+        import fbwrite
+
+        c11.compare(full, vmodel.load(fbwrite.build(spec)), art.model)
+    if rec is not None:
+        rec.cls("product-" + p["family"], "product-%s-%s" % (p["family"], "in" if ok else "out"), case["accel"])
+        rec.nontriv([case], sample=case)
+
+
+def products(ctx, arg, rec):
+    """cross products of the parameters of compound sentences (TRANSPOSE_CONV strides x IFM height x kernel height x padding; RESIZE sizes x factors x align_corners x
+    half_pixel_centers): exhaustive for the small family, a seeded sample of the large one in the quick tier"""
+    family, shard, nshards, limit = arg
+    allp = product_cases(family)
+    order = sorted(range(len(allp)), key=lambda i: sub_seed(ctx.seed, PROPERTY, family, i))
+    if limit:
+        order = order[:limit]
+    for j, i in enumerate(order):
+        if j % nshards != shard:
+            continue
+        s = sub_seed(ctx.seed, family, "cfg", i)
+        case = dict(kind="product", params=allp[i], accel=tflgen.ACCELS[s % 6], c=1 + (s >> 3) % 6)
+        rec.case()
+        try:
+            rec.check(oracle_product, case, rec)
+        except Violation as v:
+            rec.violation(v)
+
+
 def case_strategy():
     from hypothesis import strategies as st
 
@@ -323,11 +431,14 @@ def oracle_publication(case, rec=None):
 
 def parts(ctx):
     q = ctx.quick
-    return [Part("grid%02d" % i, grid, (i, 12)) for i in range(12)] + [Part("place%02d" % i, placements, (i, 6 if q else 400)) for i in range(3 if q else 15)] + [Part("publication", publication, None)]
+    prods = [Part("product-tconv%02d" % i, products, ("tconv", i, 4, 0)) for i in range(4)] + [Part("product-resize%02d" % i, products, ("resize", i, 6, 180 if q else 0)) for i in range(6)]
+    return prods + [Part("grid%02d" % i, grid, (i, 12)) for i in range(12)] + [Part("place%02d" % i, placements, (i, 6 if q else 400)) for i in range(3 if q else 15)] + [Part("publication", publication, None)]
 
 
 def replay(ctx, case):
     if case.get("kind") == "publication":
         oracle_publication(case, None)
+    elif case.get("kind") == "product":
+        oracle_product(case, None)
     else:
         oracle(case, None)
